@@ -167,7 +167,10 @@ def is_counter_exit(o, lp, sv):
         elif a.kind != "sym" and not a.deps:
             pass
     counters = {"#w.%s" % nm for nm in _counter_names(lp)}
-    return bool(names) and names <= counters
+    # the cap itself may be a parameter of the solver (`max_iterations: int = 10000`): loop-invariant, not part of the iteration
+    caps = {p for p in list(sv.params) + list(sv.kwonly)
+            if not any(isinstance(n, ast.Name) and n.id == p and isinstance(n.ctx, ast.Store) for n in ast.walk(sv.node))}
+    return bool(names & counters) and names <= (counters | caps)
 
 
 def syntactic_counters(loop: ast.While):
